@@ -6,8 +6,8 @@ order: later C-level indexing then uses `((T *) data) + i` and ignores the run-t
 elements ... as the same operation on a NumPy array ... slices with any start/stop/step including negative steps"): an axis
 sliced with a step keeps a non-strided packing only if the step cannot reverse or spread the items, i.e. only if it is
 absent (None) or the constant 1.
-Subject: the statements of the `if index.is_slice:` branch that decide the axis (fragment located by source anchors on every
-run: from `self.is_memview_slice = True` to the `if ... step ... is_none` statement).  Nodes are identities with fields;
+Subject: the statements of the `if index.is_slice:` branch that decide the axis (fragment selected structurally on every run:
+the statements of that branch before its loop over start / stop / step).  Nodes are identities with fields;
 has_constant_result() is a stub.  Not covered: the rest of analyse_types (integer indices dropping an axis, None / newaxis),
 and whether a step-LESS slice of one axis may keep the contiguity of the OTHER axes (it may not in general: recorded probe
 finding, DESIGN section 5).
@@ -34,6 +34,24 @@ def _post(e):
     return And(e.h.len(e.axes) == n0 + 1,
                Or(last == PAIR(e.access, e.packing), last == PAIR(e.access, strided)),
                Implies(And(last == PAIR(e.access, e.packing), e.packing != strided), unit_or_absent))
+
+
+def _select(fn):
+    """the axis decision, selected structurally: inside the function, the `if <index>.is_slice:` statement; of its body the statements BEFORE the
+    first loop (the loop coerces start / stop / step and is not part of the subject)"""
+    import ast
+    from dv.pyfe import StaleContract
+    ifs = [n for n in ast.walk(fn) if isinstance(n, ast.If) and isinstance(n.test, ast.Attribute) and n.test.attr == "is_slice"]
+    if len(ifs) != 1:
+        raise StaleContract("no single `if <index>.is_slice:` statement in analyse_types")
+    stmts = []
+    for st_ in ifs[0].body:
+        if isinstance(st_, (ast.For, ast.While)):
+            break
+        stmts.append(st_)
+    if not stmts:
+        raise StaleContract("the `if <index>.is_slice:` branch starts with a loop")
+    return stmts, {}
 
 
 def _pairs(e):
@@ -80,8 +98,8 @@ def units(tier):
                callees={"Node.has_constant_result": Callee("Node.has_constant_result", ["self"], result_kind="bool")},
                native=_native, search=lambda seed, ob: _native({}, ob),
                options={"fields": FIELDS, "merge": False, "dynamic_classes": (),
-                        "fragment": {"start": r"^self\.is_memview_slice = True$", "end": r"^if .*\bstep\b.*is_none"}},
-               subject={"fragment": "the axis decision of the `if index.is_slice:` branch (from `self.is_memview_slice = True` to the `if ... step ... is_none` statement)"})
+                        "fragment": {"select": _select}},
+               subject={"fragment": "the axis decision of the `if index.is_slice:` branch (structurally selected: its statements before the loop over start / stop / step)"})
     return [u]
 
 
